@@ -142,10 +142,10 @@ func r15_6(c *Ctx, r *Report) {
 	const rule = "R15.6"
 	r.rule(rule, "Week arithmetic, read as decision tables. With off = (weekday of the reference day - first weekday) wrapped to 0..6: GetWeeksOfMonth = ceil((month length + off(1st)) / 7) for month lengths 21, 28..31; SolarWeek.GetIndex = ceil((ordinal of the day in its month + off(1st)) / 7), the ordinal skipping the ten missing days of October 1582; GetIndexInYear = ceil((day of the year + off(1 January)) / 7); GetFirstDay = the week's own date moved back by off(own date) days. Each function is followed by the evaluator for every weekday 0..6, every first weekday 0..6 and every day (the calendar calls are abstract inputs; no library code runs) and its result compared with the formula.")
 	type caseT struct {
-		name  string
-		y, m  int64
-		days  []int64
-		dom   int64
+		name string
+		y, m int64
+		days []int64
+		dom  int64
 	}
 	sortedKeys := func(m map[string]bool) []string {
 		var ks []string
